@@ -159,7 +159,7 @@ GEN_PROFILES = {
     "C05": dict(gen=dict(docs=0.0, infer_returns=0.0), opts=[dict()]),
     "C06": dict(gen=dict(docs=0.0), opts=[dict()]),
     "C07": dict(gen=dict(docs=0.0, infer_returns=0.5, ties=0.3), opts=[dict()]),
-    "C04": dict(gen=dict(private_rate=0.4), opts=[dict()]),
+    "C04": dict(gen=dict(private_rate=0.4, decoys=0.6), opts=[dict()]),
     "C17": dict(gen=dict(private_rate=0.45), opts=[dict()]),
 }
 
